@@ -23,7 +23,7 @@ func TestLongChain(t *testing.T) { vkit.Check(t, collLong, GenLong, RunLong) }
 
 func TestMain(m *testing.M) { vkit.Main(m) }
 
-func TestRawGraph(t *testing.T)          { vkit.Check(t, collRaw, Gen, Run) }
+func TestRawGraph(t *testing.T)          { vkit.Check(t, collRaw, GenRaw, Run) }
 func TestTypedChain(t *testing.T)        { vkit.Check(t, collTyped, GenTyped, RunTyped) }
 func TestConcurrentReplays(t *testing.T) { vkit.Check(t, collConc, GenConc, RunConc) }
 
